@@ -166,8 +166,16 @@ func parseMachine(fd *ast.FuncDecl) (*Machine, error) {
 			case "cs, p := 0, 0", "pe := len(data)", "eof := len(data)":
 			case "dst = growBytesSliceCapacity(dst, len(dst)+len(data))":
 				m.PreGrow = true
+			case "reserve := bytes.IndexByte(data, '\"')":
+				// capacity reservation up to the first quote (appendRemainderOfString since the C20-F2 fix): no effect on contents
+			case "dst = growBytesSliceCapacity(dst, len(dst)+reserve)":
+				m.PreGrow = true
 			default:
 				return nil, fmt.Errorf("unexpected prologue assignment: %s", s)
+			}
+		case *ast.IfStmt:
+			if s := src(st); s != "if reserve < 0 { reserve = len(data) }" {
+				return nil, fmt.Errorf("unexpected prologue statement: %s", s)
 			}
 		default:
 			_ = st
